@@ -191,9 +191,38 @@ class BoundMethod:
         self.fn, self.obj, self.static = fn, obj, static
 
 
+_UNDECORATED = {}
+
+
+def _undecorated(fn):
+    k = id(fn)
+    if k not in _UNDECORATED:
+        import copy
+        g = copy.copy(fn)
+        g.decorator_list = []
+        _UNDECORATED[k] = (fn, g)
+    return _UNDECORATED[k][1]
+
+
+def _copy_containers(v, depth=0):
+    """a copy of the dict/list/set structure of v (leaves are shared): a module-level table as a fresh import builds it"""
+    if depth > 6:
+        return v
+    if type(v) is dict:
+        return {k: _copy_containers(x, depth + 1) for k, x in v.items()}
+    if type(v) is list:
+        return [_copy_containers(x, depth + 1) for x in v]
+    if type(v) is set:
+        return set(v)
+    return v
+
+
 class Interp:
-    def __init__(self, mod, extra_env: Optional[dict] = None, max_steps: int = 200000, opaque: Optional[dict] = None, module_state: Optional[dict] = None):
+    def __init__(self, mod, extra_env: Optional[dict] = None, max_steps: int = 200000, opaque: Optional[dict] = None, module_state: Optional[dict] = None, share_consts: bool = False):
         self.mod = mod
+        # share_consts: module-level tables are objects of the simulated process (kept in module_state): what one call leaves
+        # in them - through any alias - is there for the next Interp of the same history.  Off: every access gets a fresh copy
+        self.share_consts = share_consts
         self.extra = extra_env or {}
         # module-level names re-bound through `global` statements: the caller passes one dict per scenario so that
         # successive calls (separate Interp objects) see what earlier calls of the same history stored
@@ -299,6 +328,15 @@ class Interp:
         if self.depth > 60:
             raise Unsupported("recursion too deep")
         try:
+            if getattr(fn, "decorator_list", None) and parent_env is None:
+                memo_key = self._memo_key(fn, args, kwargs)
+                if memo_key is not None:
+                    memo = self.module_state.setdefault(("__memo__", self.mod.rel, fn.name, fn.lineno), {})
+                    if memo_key in memo:
+                        return memo[memo_key]
+                    fn_plain = _undecorated(fn)
+                    memo[memo_key] = out_ = self._call(fn_plain, args, kwargs, parent_env)
+                    return out_
             bound = self._bind(fn, args, kwargs)
             env = Env(parent_env)
             for k, v in bound.items():
@@ -330,6 +368,19 @@ class Interp:
             return None
         finally:
             self.depth -= 1
+
+    def _memo_key(self, fn, args, kwargs):
+        """hashable key of a call of a function decorated with functools.lru_cache / functools.cache (None: not memoised)"""
+        for d in fn.decorator_list:
+            dn = lit_name(d.func if isinstance(d, ast.Call) else d) or ""
+            if dn.split(".")[-1] in ("lru_cache", "cache"):
+                try:
+                    key = (tuple(args), tuple(sorted((kwargs or {}).items())))
+                    hash(key)
+                    return key
+                except TypeError:
+                    raise Raised("TypeError", "unhashable argument of a memoised function")
+        return None
 
     def _bind(self, fn, args, kwargs):
         a = fn.args
@@ -409,7 +460,22 @@ class Interp:
             return
         if isinstance(st, ast.AugAssign):
             cur = self.expr(ast.copy_location(self._load(st.target), st.target), env)
-            v = self._binop(type(st.op), cur, self.expr(st.value, env), st)
+            rhs = self.expr(st.value, env)
+            # containers are updated in place (list.__iadd__ / set.__ior__ ...): every alias of the object sees the change
+            if isinstance(cur, list) and isinstance(st.op, ast.Add) and isinstance(rhs, (list, tuple, set, str, dict)) or (isinstance(cur, list) and isinstance(st.op, ast.Add) and hasattr(rhs, "__iter__") and not isinstance(rhs, (int, float))):
+                cur.extend(rhs)
+                v = cur
+            elif isinstance(cur, set) and isinstance(rhs, (set, frozenset)) and isinstance(st.op, (ast.BitOr, ast.BitAnd, ast.Sub, ast.BitXor)):
+                {ast.BitOr: cur.update, ast.BitAnd: cur.intersection_update, ast.Sub: cur.difference_update, ast.BitXor: cur.symmetric_difference_update}[type(st.op)](rhs)
+                v = cur
+            elif isinstance(cur, dict) and isinstance(rhs, dict) and isinstance(st.op, ast.BitOr):
+                cur.update(rhs)
+                v = cur
+            elif isinstance(cur, list) and isinstance(st.op, ast.Mult) and isinstance(rhs, int) and not isinstance(rhs, bool):
+                cur[:] = cur * rhs
+                v = cur
+            else:
+                v = self._binop(type(st.op), cur, rhs, st)
             self._assign(st.target, v, env)
             return
         if isinstance(st, ast.If):
@@ -615,9 +681,15 @@ class Interp:
                 return self.extra[n.id]
             if n.id in self.mod.consts:
                 ck = (self.mod.rel, self.mod.sha, n.id)
+                if self.share_consts:
+                    sk = ("__const__", self.mod.rel, n.id)
+                    if sk not in self.module_state:
+                        probe = Interp(self.mod, extra_env=self.extra, opaque=self.opaque)
+                        self.module_state[sk] = _copy_containers(probe.expr(n, {}))
+                    return self.module_state[sk]
                 if ck in _CONST_CACHE:
                     v = _CONST_CACHE[ck]
-                    return type(v)(v) if isinstance(v, (dict, list, set)) else v
+                    return _copy_containers(v) if isinstance(v, (dict, list, set)) else v
                 try:
                     v = _real(lit.ev(self.mod.consts[n.id], self.mod))
                 except lit.NotLiteral:
@@ -625,7 +697,7 @@ class Interp:
                     v = self.expr(self.mod.consts[n.id], {})
                 v = self._module_level_updates(n.id, v)
                 _CONST_CACHE[ck] = v
-                return type(v)(v) if isinstance(v, (dict, list, set)) else v
+                return _copy_containers(v) if isinstance(v, (dict, list, set)) else v
             if n.id in self.mod.funcs:
                 return self.mod.funcs[n.id]
             if n.id in _TYPES:
